@@ -22,12 +22,32 @@ const (
 func loopHeaderOf(b *ssa.BasicBlock) *ssa.BasicBlock {
 	for h := b; h != nil; h = h.Idom() {
 		for _, p := range h.Preds {
-			if h.Dominates(p) && (p == b || blockReaches(b, p)) {
+			if h.Dominates(p) && (p == b || b == h || reachesAvoiding(b, p, h)) {
 				return h
 			}
 		}
 	}
 	return nil
+}
+
+// reachesAvoiding: a path from → to that does not pass through avoid
+// (membership of the natural loop of the back edge to→avoid).
+func reachesAvoiding(from, to, avoid *ssa.BasicBlock) bool {
+	seen := map[*ssa.BasicBlock]bool{avoid: true}
+	q := []*ssa.BasicBlock{from}
+	for len(q) > 0 {
+		x := q[0]
+		q = q[1:]
+		if x == to {
+			return true
+		}
+		if seen[x] {
+			continue
+		}
+		seen[x] = true
+		q = append(q, x.Succs...)
+	}
+	return false
 }
 
 func blockReaches(from, to *ssa.BasicBlock) bool {
